@@ -34,9 +34,10 @@ func genC12(t *rapid.T, tier string) C12Case {
 		Caches: []string{"none"}, Vals: []string{core.VInt, core.VBytes},
 		Keys:       []string{core.KLK, core.KLK, core.KLK, core.KInt, core.KString, core.KStruct, core.KStruct, core.KUint64, core.KBytes},
 		Marshalers: []string{"json"},
+		BigOneIn:   40,
 	})}
 	pool := len(c.Cfg.Pool())
-	c.Base = append(core.GenFill(t, pool, pool), core.GenProgram(t, pairBaseWeights, 15, 1)...)
+	c.Base = append(core.GenFillCfg(t, c.Cfg, pool), core.GenProgram(t, pairBaseWeights, 15, 1)...)
 	c.Residency = rapid.SampledFrom([]string{"memory", "reloaded", "reloaded", "reloaded+dirty", "reloaded+dirty", "reloaded+dirty"}).Draw(t, "residency")
 	if c.Residency == "reloaded+dirty" {
 		c.Dirty = core.GenProgram(t, core.OpWeights{core.OpInsertNew: 2, core.OpDelete: 2, core.OpUpdate: 6}, 12, 1)
